@@ -17,8 +17,14 @@ func (q queryServer) CalculationSwapExactAmountIn(goCtx context.Context, req *ty
 	}
 	ctx := sdk.UnwrapSDKContext(goCtx)
 
+	if req.Route == nil {
+		return nil, status.Error(codes.InvalidArgument, "route cannot be empty")
+	}
+	if err := req.Route.Validate(); err != nil {
+		return nil, err
+	}
 	amountIn, ok := sdkmath.NewIntFromString(req.AmountIn)
-	if !ok {
+	if !ok || !amountIn.IsPositive() {
 		return nil, types.ErrInvalidAmount
 	}
 	result, interfaceProviderFee, err := q.k.CalculateResultExactAmountIn(ctx, req.HasInterfaceFee, *req.Route, amountIn)
@@ -39,8 +45,14 @@ func (q queryServer) CalculationSwapExactAmountOut(goCtx context.Context, req *t
 	}
 	ctx := sdk.UnwrapSDKContext(goCtx)
 
+	if req.Route == nil {
+		return nil, status.Error(codes.InvalidArgument, "route cannot be empty")
+	}
+	if err := req.Route.Validate(); err != nil {
+		return nil, err
+	}
 	amountOut, ok := sdkmath.NewIntFromString(req.AmountOut)
-	if !ok {
+	if !ok || !amountOut.IsPositive() {
 		return nil, types.ErrInvalidAmount
 	}
 	result, interfaceProviderFee, err := q.k.CalculateResultExactAmountOut(ctx, req.HasInterfaceFee, *req.Route, amountOut)
